@@ -905,7 +905,9 @@ def check_serving(sc, probe):
     if sc.acceptor.state == "done":
         bad.append(("accept-loop-dead", "the accept loop has ended: %r" % (sc.acceptor.result,)))
     elif sc.acceptor.why != "accept":
-        bad.append(("accept-loop-stuck", "the accept loop is blocked at %r instead of accepting" % (sc.acceptor.why,)))
+        where = "authenticating" if (sc.with_auth and str(sc.acceptor.why).startswith("recv")) else "elsewhere"
+        bad.append(("accept-loop-stuck:%s" % where, "the accept loop is blocked at %r instead of accepting" % (sc.acceptor.why,)))
+    loop_ok = not bad
     for co in sc.server_threads():
         if co.name.startswith("Worker") or co.name == "PollingThread":
             if co.state == "done":
@@ -919,6 +921,8 @@ def check_serving(sc, probe):
         msgs, clean = sc.replies(c)
         if c["left"] and not c is probe:
             continue
+        if not accepted(sc, c) and not loop_ok:
+            continue                      # never accepted: a consequence of the accept-loop problem reported above
         if len(msgs) != c["calls"] or not clean:
             bad.append(("not-served", "well-behaved client %s made %d call(s) and got %d repl(ies)" % (c["ep"].name, c["calls"], len(msgs))))
             continue
